@@ -248,25 +248,27 @@ type v9Viol struct {
 }
 
 type v9Result struct {
-	Sequences   int       `json:"sequences"`
-	Quiet       int       `json:"sequences_reexecuted_with_reads_only_at_the_end"`
-	Operations  int       `json:"operations"`
-	Reads       int       `json:"reads_compared"`
-	CrashImages int       `json:"crash_images"`
-	JournalCuts int       `json:"journal_cuts"`
-	CutAbsent   int       `json:"cuts_op_absent"`
-	CutPresent  int       `json:"cuts_op_present"`
-	CutSkipped  int       `json:"journal_cut_skipped"`
-	Pruned      int       `json:"prefixes_pruned_after_violation"`
-	Unsupported int       `json:"skipped_protobuf_to_json"`
-	States      []string  `json:"states"`
-	Violations  []*v9Viol `json:"violations"`
-	Samples     []string  `json:"samples"`
-	Exhaustive  bool      `json:"exhaustive"`
-	Depth       int       `json:"depth"`
-	Alphabet    int       `json:"alphabet"`
-	sigs        map[string]*v9Viol
-	states      map[uint64]bool
+	Sequences         int       `json:"sequences"`
+	Quiet             int       `json:"sequences_reexecuted_with_reads_only_at_the_end"`
+	BystanderChecks   int       `json:"second_store_checks"`
+	BystanderReopened int       `json:"second_store_reopened"`
+	Operations        int       `json:"operations"`
+	Reads             int       `json:"reads_compared"`
+	CrashImages       int       `json:"crash_images"`
+	JournalCuts       int       `json:"journal_cuts"`
+	CutAbsent         int       `json:"cuts_op_absent"`
+	CutPresent        int       `json:"cuts_op_present"`
+	CutSkipped        int       `json:"journal_cut_skipped"`
+	Pruned            int       `json:"prefixes_pruned_after_violation"`
+	Unsupported       int       `json:"skipped_protobuf_to_json"`
+	States            []string  `json:"states"`
+	Violations        []*v9Viol `json:"violations"`
+	Samples           []string  `json:"samples"`
+	Exhaustive        bool      `json:"exhaustive"`
+	Depth             int       `json:"depth"`
+	Alphabet          int       `json:"alphabet"`
+	sigs              map[string]*v9Viol
+	states            map[uint64]bool
 }
 
 func (r *v9Result) report(sig, desc string, ops []string, detail []string) {
@@ -608,6 +610,7 @@ func v9Env(name string, def int) int {
 }
 
 type v9Ctx struct {
+	by       *LevelDBStore // a second store of the same process (production has two: raftlog and irclog)
 	res      *v9Result
 	ops      []*v9Op
 	base     string
@@ -665,6 +668,41 @@ func (c *v9Ctx) reportMis(mm []v9Mis, where string, names []string) (hard bool) 
 	return hard
 }
 
+// v9BystanderIdx are the indexes the second store holds (the same ones the alphabet uses).
+var v9BystanderIdx = []uint64{1, 2, 3, 7, v9I40, v9I63}
+
+// bystander: operations on one store must leave every other store of the process alone.  After every
+// operation on the store under test the second store takes one unrelated write and must still hold all
+// of its entries (state shared between stores -- pooled batches, package-level buffers -- would show here).
+func (c *v9Ctx) bystander(t *testing.T, names []string, where string) {
+	if c.by == nil {
+		by, err := v9Open(filepath.Join(c.base, fmt.Sprintf("bystander%d", c.res.BystanderReopened)), true)
+		if err != nil {
+			t.Fatalf("open bystander: %v", err)
+		}
+		for _, i := range v9BystanderIdx {
+			if err := by.StoreLog(&raft.Log{Index: i, Term: 77, Type: raft.LogNoop, Data: []byte("bystander")}); err != nil {
+				t.Fatalf("bystander StoreLog: %v", err)
+			}
+		}
+		c.by = by
+	}
+	if err := c.by.StoreLog(&raft.Log{Index: 99, Term: 78, Type: raft.LogNoop}); err != nil {
+		t.Fatalf("bystander StoreLog: %v", err)
+	}
+	c.res.BystanderChecks++
+	for _, i := range v9BystanderIdx {
+		var l raft.Log
+		if err := c.by.GetLog(i, &l); err != nil || l.Term != 77 || string(l.Data) != "bystander" {
+			c.res.report("an operation on one store changed another store of the same process "+where, strings.Join(names, " ; ")+fmt.Sprintf("  =>  the second store lost or changed its entry %d (%v)", i, err), names, []string{fmt.Sprint(err)})
+			c.by.Close()
+			c.by = nil
+			c.res.BystanderReopened++
+			return
+		}
+	}
+}
+
 // ---------------------------------------------------------------- TestVerifC09Seq
 
 // runSeq executes one sequence on a fresh database; returns the position of the first
@@ -695,6 +733,7 @@ func (c *v9Ctx) runSeq(t *testing.T, initPB bool, seq []int) int {
 		}
 		v9ApplyModel(m, op)
 		c.res.states[m.hash()] = true
+		c.bystander(t, c.names(initPB, seq[:k+1]), "after "+tag)
 		mm := v9Check(s, m, false, &c.res.Reads)
 		if len(mm) > 0 && c.reportMis(mm, "after "+tag, c.names(initPB, seq[:k+1])) {
 			return k
